@@ -41,12 +41,13 @@ type c19Pos struct {
 }
 
 type c19Method struct {
-	owner string // short type name
-	name  string
-	fn    reflect.Value // func(receiver, args...)
-	ft    reflect.Type
-	pos   []c19Pos
-	cls   []int
+	interior map[int][]int // set only during driveInterior: position -> field path inside the receiver object
+	owner    string        // short type name
+	name     string
+	fn       reflect.Value // func(receiver, args...)
+	ft       reflect.Type
+	pos      []c19Pos
+	cls      []int
 }
 
 func c19TypeKey(t reflect.Type) string {
@@ -521,6 +522,12 @@ func (m *c19Method) run(part []int, protos []reflect.Value, extras map[int]refle
 			objs[i] = c19Clone(&m.pos[i], protos[part[i]-1])
 		}
 	}
+	if aliased {
+		// interior aliasing (see driveInterior): position i is a pointer INTO the receiver object
+		for i, path := range m.interior {
+			objs[i] = objs[0].Elem().FieldByIndex(path).Addr()
+		}
+	}
 	args := make([]reflect.Value, m.ft.NumIn())
 	views := make([]func() reflect.Value, n)
 	for i := range m.pos {
@@ -753,11 +760,111 @@ func (s *c19Suite) drive(t *TraceWriter, m *c19Method, cfg *c19Cfg, r *Rng, st *
 			}
 		}
 	}
+	calls += s.driveInterior(t, m, parts, r)
 	t.Emit(Ev{"op": "End", "key": m.key(), "calls": calls})
 	st.Methods++
 	st.Partitions += len(parts)
 	st.Events += calls
 	st.Driven = append(st.Driven, s.name+":"+m.key())
+}
+
+// c19FieldPaths lists the index paths of the struct fields of type want inside T (depth <= 3)
+func c19FieldPaths(T, want reflect.Type, depth int) [][]int {
+	var out [][]int
+	if T.Kind() != reflect.Struct || depth == 0 {
+		return nil
+	}
+	for i := 0; i < T.NumField(); i++ {
+		ft := T.Field(i).Type
+		if ft == want {
+			out = append(out, []int{i})
+			continue
+		}
+		for _, p := range c19FieldPaths(ft, want, depth-1) {
+			out = append(out, append([]int{i}, p...))
+		}
+	}
+	return out
+}
+
+// driveInterior: beyond the letter of the property (which speaks of operands being the SAME object): an operand of a
+// component type (an E2 factor of an E6 method, a base-field factor of an E2 method) that points INTO the receiver object.
+// The reference run gives every position its own object, the operand holding a copy of the receiver's component; the aliased
+// run passes the address of the component itself, once with all other positions distinct and once with every operand of the
+// receiver's class being the receiver (z.Op(z, &z.B0)). Logged as "Interior" events: observations, not judged (the unmodified
+// library's sparse tower multiplications are not safe under interior pointers, and the property does not ask for it).
+func (s *c19Suite) driveInterior(t *TraceWriter, m *c19Method, parts [][]int, r *Rng) int {
+	if m.hasSlices() || len(m.pos) < 2 || m.pos[0].kind != "ptr" || m.pos[0].arg != 0 {
+		return 0
+	}
+	n := len(m.pos)
+	discrete := make([]int, n)
+	for i := range discrete {
+		discrete[i] = i + 1
+	}
+	coarse := parts[0]
+	nbOf := func(p []int) int {
+		mx := 0
+		for _, b := range p {
+			if b > mx {
+				mx = b
+			}
+		}
+		return mx
+	}
+	for _, p := range parts {
+		if nbOf(p) < nbOf(coarse) {
+			coarse = p
+		}
+	}
+	calls := 0
+	for i := 1; i < n; i++ {
+		if m.pos[i].kind != "ptr" || m.pos[i].objT == m.pos[0].objT {
+			continue
+		}
+		paths := c19FieldPaths(m.pos[0].objT, m.pos[i].objT, 3)
+		if len(paths) > 4 {
+			paths = append(paths[:2], paths[len(paths)-2:]...)
+		}
+		for _, path := range paths {
+			for _, part := range [][]int{discrete, coarse} {
+				if part[i] == part[0] {
+					continue
+				}
+				nb := nbOf(part)
+				first := make([]int, nb)
+				for k := n - 1; k >= 0; k-- {
+					first[part[k]-1] = k
+				}
+				for d := 0; d < 2; d++ {
+					protos := make([]reflect.Value, nb)
+					ok := true
+					for b := 0; b < nb && ok; b++ {
+						protos[b], ok = s.fresh(&m.pos[first[b]], r, 3*d, 1)
+					}
+					if !ok {
+						return calls
+					}
+					// the interior operand holds a copy of the receiver's component
+					protos[part[i]-1] = reflect.New(m.pos[i].objT)
+					protos[part[i]-1].Elem().Set(protos[part[0]-1].Elem().FieldByIndex(path))
+					ex, logged, _ := m.extras(r)
+					ref := m.run(part, protos, ex, false)
+					m.interior = map[int][]int{}
+					for j := 1; j < n; j++ {
+						if part[j] == part[i] { // every position of the operand's block is that interior pointer
+							m.interior[j] = path
+						}
+					}
+					ali := m.run(part, protos, ex, true)
+					m.interior = nil
+					t.Emit(Ev{"op": "Interior", "key": m.key(), "part": part, "ipos": i + 1, "path": path, "in": ref.in, "x": logged, "ref": ref.obs, "ali": ali.obs})
+					calls++
+				}
+			}
+		}
+	}
+	return calls
 }
 
 func (s *c19Suite) runSuite(cfg *c19Cfg, st *c19Stats) {
